@@ -354,8 +354,10 @@ def run_files(spec):
                 wy = np.array([p["weight"] for p in y["phonon"]])
                 qy = np.array([p["q-position"] for p in y["phonon"]])
                 gy = np.array([[b["group_velocity"] for b in p["band"]] for p in y["phonon"]])
+                ev = np.array([[[[c[0] + 1j * c[1] for c in atom] for atom in b["eigenvector"]] for b in p["band"]] for p in y["phonon"]])
+                ev = ev.reshape(len(fy), ev.shape[1], -1).transpose(0, 2, 1)
                 checks = [("frequencies", fy, md["frequencies"], 5.1e-11), ("weights", wy, md["weights"], 0), ("q-positions", qy, md["qpoints"], 5.1e-8),
-                          ("group velocities", gy, md["group_velocities"], 5.1e-8)]
+                          ("eigenvectors", ev, md["eigenvectors"], 5.1e-15), ("group velocities", gy, md["group_velocities"], 5.1e-8)]
             else:
                 ph.write_hdf5_mesh()
                 with h5py.File("mesh.hdf5", "r") as h:
